@@ -239,6 +239,12 @@ func checkRow(t *merkle.CompactMerkleTree, w *world, n int, mode string, rfcComp
 }
 
 func fileBytes(name string) []byte {
+	// a hash file of <= ~600 leaves is < 40 KiB; anything huge is a wrongly placed (sparse) write and is
+	// reported instead of being read into memory
+	if fi, err := os.Stat(name); err == nil && fi.Size() > 16<<20 {
+		r.Violation("hash-file:absurd-size", map[string]any{"bytes": fi.Size()})
+		return nil
+	}
 	b, err := os.ReadFile(name)
 	if err != nil {
 		r.HarnessError("read %s: %v", name, err)
